@@ -81,13 +81,13 @@ def main():
         fh.write("\n")
     print({k: sum(len(v) for v in e.values()) for k, e in table.items()})
     # shapes of every function a rule is keyed on (parents of nested functions), for the alpha-normalisation pre-pass
-    from qv.core.alpha import shape_of, statement_digests, top_functions
+    from qv.core.alpha import canon_digest, shape_of, statement_digests, top_functions
     shapes = {}
     for mname, m in repo.modules.items():
         for q, fn in top_functions(m.tree):
             key = f"{mname}:{q}"
             digest, order = shape_of(fn)
-            shapes[key] = {"digest": digest, "locals": order, "stmts": statement_digests(fn)}
+            shapes[key] = {"digest": digest, "locals": order, "stmts": statement_digests(fn), "canon": canon_digest(fn), "src": ast.unparse(fn)}
     import hashlib
     shapes["__modules__"] = {mname: hashlib.sha256(m.source.encode()).hexdigest()[:20] for mname, m in repo.modules.items()}
     with open(os.path.join(rules_dir, "pinned_shapes.json"), "w") as fh:
